@@ -729,11 +729,10 @@ class Cache:
         txn_id = self._txn_id
 
         if tid == txn_id:
-            begin = False
             # Nested in a transaction of this thread. Files are removed by
             # the outermost transaction: replaced files after it commits,
             # files written for it if it rolls back.
-            filenames = self._txn_cleanup
+            begin = False
         else:
             while True:
                 try:
@@ -771,6 +770,8 @@ class Cache:
                 for name in filenames:
                     if name is not None:
                         _disk_remove(name)
+            else:
+                self._txn_cleanup.extend(filenames)
 
     def _remove_committed(self, filename):
         # Remove the file of a deleted row: at once, or after the enclosing
